@@ -113,6 +113,7 @@ struct PLin2 : TPBase
       case 5: x[j] = 0; break;
       default: x[j] = j == 0 ? 3 : (j == 1 ? -2 : 1); break;  // the exact zero-residual point of the "zero" instance
       }
+      x[j] = snap(x[j]);
     }
     return Args{Eigen::Vector2d(x[0], x[1]), x[2]};
   }
